@@ -91,14 +91,14 @@ def spec (c04 c05 c08 : Bool) (v : VSt) (t : Nat) (w : List String) : Except Str
           v := { v with cancelled := name :: v.cancelled, tags := "cancel" :: v.tags }
       | ["shift"] => v := { v with cancelled := v.cancelled.filter (· ≠ name), tags := "shift" :: v.tags }
       | ["todo"] => v := { v with cancelled := v.cancelled.filter (· ≠ name) }
-      | ["stop"] | ["stop-in-task"] =>
+      | ["stop"] | ["stop-in-task"] | ["stop-signal"] =>
         -- only a Stop that no Run has consumed yet obliges the Run in progress
         if v.pendingStops.contains t then v := { v with stopDone := true, stepsSinceStop := 0, tags := "stop" :: v.tags }
         else v := { v with tags := "stop" :: v.tags }
       | _ => pure ()
     else if kind == "begin" then
       match rest with
-      | ["stop"] | ["stop-in-task"] => v := { v with stopBegun := true, pendingStops := t :: v.pendingStops }
+      | ["stop"] | ["stop-in-task"] | ["stop-signal"] => v := { v with stopBegun := true, pendingStops := t :: v.pendingStops }
       | _ => pure ()
   | ["mark", "run-enter"] => v := { v with inRun := true, stepsSinceStop := 0 }
   | ["mark", "run-exit"] =>
@@ -123,6 +123,7 @@ def model (v : VSt) (t : Nat) (w : List String) (what : String) : Except String 
     if isDrv then pure { v with drvStopping := true }
     else (do let v' ← fire v [.uStopSet t] what; pure { v' with stopping := t :: v'.stopping })
   | ["mark", "begin", _, "stop-in-task"] => pure { v with drvStopping := true }
+  | ["mark", "begin", _, "stop-signal"] => pure { v with drvStopping := true }
   | ["lock", "step"] =>
     if isDrv then fire v [.dLockStep] what else fire v [.uLockStep t] what
   | ["trylock", "step", "ok"] =>
@@ -143,9 +144,13 @@ def model (v : VSt) (t : Nat) (w : List String) (what : String) : Except String 
   | "poll" :: rest =>
     if rest.any (·.startsWith "pipe:") then
       -- the driver's wait in StepSockets
-      let pipeReady := (rest.dropWhile (· ≠ "->")).contains "pipe"
+      let after := rest.dropWhile (· ≠ "->")
+      let pipeReady := after.contains "pipe"
       if !isDrv then throw "a non-driver thread polled the signalling pipe"
-      if pipeReady then fire v [.dToPoll, .dPollPipe] what else fire v [.dToPoll, .dPollOther] what
+      -- a poll interrupted by a signal (EINTR) is re-issued by the wait: the driver stays at `atPoll`
+      let enter : List L := match v.m.d with | .atPoll _ => [] | _ => [.dToPoll]
+      if after.contains "eintr" then fire v enter what
+      else if pipeReady then fire v (enter ++ [.dPollPipe]) what else fire v (enter ++ [.dPollOther]) what
     else if rest.any (·.startsWith "pipefrom:") then
       -- Bump(): the flag store of Stop() precedes it
       pure v
